@@ -83,14 +83,24 @@ def oracle(case, rec):
         thresh = float(tsel.split(':')[1]) * np.abs(x).sum() if isinstance(tsel, str) else tsel
         kw['sift_thresh'] = thresh
     rec.cls('sift_thresh=%s' % ('default' if not kw else 'zero' if thresh == 0 else 'large'))
+    given = gens.arg(xin)
     try:
-        imf = emd.sift.sift(gens.arg(xin), imf_opts=dict(opts), envelope_opts=dict(eo), extrema_opts=copy.deepcopy(xo), **kw)
+        imf = emd.sift.sift(given, imf_opts=dict(opts), envelope_opts=dict(eo), extrema_opts=copy.deepcopy(xo), **kw)
     except emd.support.EMDSiftCovergeError:
         rec.cls('outcome=convergence-error')
         return False
     except Exception as e:
         raise Violation('C01/sift/raises/%s/%s' % (type(e).__name__, opts['stop_method']), repr(e))
     imf = np.asarray(imf)
+    if isinstance(given, np.ndarray) and given.flags.writeable and imf.size:
+        # the caller goes on using its buffer (next record, detrending in place): the decomposition it keeps is of the signal
+        # it passed, not of whatever the buffer holds later
+        keep = imf.copy()
+        given[...] = 0
+        if not np.array_equal(imf, keep, equal_nan=True):
+            raise Violation('C01/sift/result-shares-memory-with-the-input-array',
+                            'the returned components changed when the caller overwrote its own input array')
+        imf = keep
     if imf.ndim != 2 or imf.shape[0] != x.size or imf.shape[1] < 1:
         raise Violation('C01/sift/shape', repr(imf.shape))
     if not np.all(np.isfinite(imf)):
